@@ -126,8 +126,62 @@ def oracle(pop, date, sh, ctx):
     return fails
 
 
+def near_duplicate_shard(desc):
+    """Populations of nearly identical persons (the same single person copied with amounts that differ
+    by half a cent / one cent / 1e-7 relative): a row's value must not be taken from another row just
+    because the two are almost equal."""
+    import datetime
+
+    from hypothesis import strategies as st
+
+    from .. import dates as D
+
+    sh = core.Shard()
+    known = core.load_known(PROP)
+    date = datetime.date.fromisoformat(desc["date"])
+
+    @st.composite
+    def strat(draw):
+        pop = draw(popgen.populations(date, mode="branch", max_households=1, archetypes=["single", "single", "pensioners"]))
+        k = draw(st.integers(2, 4))
+        deltas = [draw(st.sampled_from([0.0, 0.005, 0.01, 0.02, 1e-7])) for _ in range(k)]
+        return pop, k, deltas
+
+    def oracle(case):
+        pop, k, deltas = case
+        one = pop.df.iloc[:1].copy()
+        for c in popgen.POINTER_COLS:
+            one[c] = -1
+        one["kind"] = False
+        one["alleinerz"] = False
+        one["gemeinsam_veranlagt"] = False
+        big = popgen.replicate(one, k, seed=len(deltas))
+        for i, dlt in enumerate(deltas):
+            for c in popgen.MONEY_COLS + ["bruttokaltmiete_m_hh", "heizkosten_m_hh"]:
+                v = float(big[c].iloc[i])
+                if v > 0:
+                    big.loc[big.index[i], c] = v * (1 + dlt) if dlt == 1e-7 else v + dlt
+        fails = check(big, date)
+        if len(set(deltas)) > 1:
+            sh.nontrivial.add("near|" + core.digest([desc["date"], big["bruttolohn_m"].tolist(), deltas]))
+        sh.classes["near-identical-persons"] += 1
+        sh.sample({"date": desc["date"], "near_identical_persons": int(k), "bruttolohn_m": big["bruttolohn_m"].tolist()}, limit=1)
+        for f in fails:
+            if f.key not in known:
+                f.case = popcheck.payload(big, date)
+        return fails
+
+    core.explore(strat(), oracle, n=desc["n"], seed=D.sub_seed(desc["seed"], PROP, "near", desc["date"]), shard=sh,
+                 known=known, shrink=False)
+    return sh
+
+
 def run(tier, seed, t0):
-    return popcheck.run(__name__, tier, seed, t0)
+    from .. import dates as D
+
+    days = [s_[0].isoformat() for s_ in D.pick(D.strata(), 16 if tier == "quick" else 32, seed, PROP, "near")]
+    extra = [("vf.checks.c03", "near_duplicate_shard", [{"date": d, "n": 6 if tier == "quick" else 40, "seed": seed} for d in days])]
+    return popcheck.run(__name__, tier, seed, t0, extra_descs=extra)
 
 
 def replay(case):
